@@ -36,9 +36,11 @@ def run(ctx):
     allcases = []
     ambiguous = 0
     for sd in seeds:
-        rc, out = L.run_harness(ctx, exe, TEST, env={"VERIF_N": n, "VERIF_MAXOPS": 40 if ctx.tier == "quick" else 80, "VERIF_SEED": sd})
+        rc, out = L.run_harness(ctx, exe, TEST, env={"VERIF_N": n, "VERIF_MAXOPS": 40 if ctx.tier == "quick" else 80, "VERIF_SEED": sd, "VERIF_FLUSH": 1})
         if rc != 0:
-            ctx.tie_failures.append("harness run failed (rc=%d): %s" % (rc, out[-600:]))
+            # a panic in the scheduler's goroutine (or in a callback it handed to the proxy) ends the process: the history so far is the replay
+            if not L.crash_violation(ctx, TRANSCRIPT, out, "c07"):
+                ctx.tie_failures.append("harness run failed (rc=%d): %s" % (rc, out[-600:]))
             return
         impl = "%s/%s" % (ctx.out, TRANSCRIPT)
         model = impl + ".model.txt"
